@@ -3,6 +3,11 @@ import Pixman.Spec.SampleGrid
 import Pixman.Gen.ZeroSrc
 import Pixman.Lemmas.Trap
 import Pixman.Lemmas.TrapRow
+import Pixman.Lemmas.TrapFill
+import Pixman.Lemmas.TrapRows
+import Pixman.Lemmas.TrapShape
+import Pixman.Lemmas.TrapTri
+import Pixman.Lemmas.TrapSetup
 import Pixman.Spec.ZeroSrc
 /-! C12 — trapezoid coverage is an exact sample count: property theorems.
 
@@ -14,8 +19,8 @@ open Pixman.Gen.SampleGrid
 open Pixman.Spec.SampleGrid
 open Pixman.Lemmas.Trap
 
-/-- the depths the rasteriser supports -/
-def Depth (n : Nat) : Prop := n = 1 ∨ n = 4 ∨ n = 8
+/-- the depths the rasteriser supports: `n = 1 ∨ n = 4 ∨ n = 8` -/
+abbrev Depth (n : Nat) : Prop := Pixman.Lemmas.TrapRows.Depth n
 
 /-! ## R1 — `pixman_sample_ceil_y` / `pixman_sample_floor_y`
 
@@ -28,132 +33,32 @@ def Depth (n : Nat) : Prop := n = 1 ∨ n = 4 ∨ n = 8
   checks/C12.py). -/
 
 theorem isGridRow_iff (n : Nat) (hn : Depth n) (y : Int) :
-    IsGridRow n y ↔ (yFracFirst n ≤ y % 65536 ∧ y % 65536 ≤ yFracLast n ∧ (y % 65536 - yFracFirst n) % stepYSmall n = 0) := by
-  constructor
-  · rintro ⟨r, k, hk, rfl⟩
-    rcases hn with h | h | h <;> subst h <;> simp only [rowPos, yFracFirst, yFracLast, stepYSmall, nYFrac] at *
-    · have := emod_pixel r (32768 + (k : Int) * 65536) (by omega) (by omega); rw [Int.add_assoc, this]; omega
-    · have := emod_pixel r (10923 + (k : Int) * 21845) (by omega) (by omega); rw [Int.add_assoc, this]; omega
-    · have := emod_pixel r (2185 + (k : Int) * 4369) (by omega) (by omega); rw [Int.add_assoc, this]; omega
-  · intro h
-    refine ⟨y / 65536, ((y % 65536 - yFracFirst n) / stepYSmall n).toNat, ?_, ?_⟩ <;>
-    rcases hn with h | h | h <;> subst h <;> simp only [rowPos, yFracFirst, yFracLast, stepYSmall, nYFrac] at * <;> omega
+    IsGridRow n y ↔ (yFracFirst n ≤ y % 65536 ∧ y % 65536 ≤ yFracLast n ∧ (y % 65536 - yFracFirst n) % stepYSmall n = 0) :=
+  Pixman.Lemmas.TrapRows.isGridRow_iff n hn y
 
 /-- a grid row written with explicit pixel row and sub-row -/
 theorem isGridRow_mk (n : Nat) (r k : Int) (hk0 : 0 ≤ k) (hk : k < nYFrac n) :
     IsGridRow n (r * 65536 + yFracFirst n + k * stepYSmall n) :=
-  ⟨r, k.toNat, by omega, by simp only [rowPos]; rw [Int.toNat_of_nonneg hk0]⟩
+  Pixman.Lemmas.TrapSetup.isGridRow_mk n r k hk0 hk
 
 theorem sampleCeilY_grid (n : Nat) (hn : Depth n) (y : Int) (h : y ≤ 2147418112 + yFracLast n) :
-    IsGridRow n (sampleCeilY y n) ∧ y ≤ sampleCeilY y n ∧ ∀ g, IsGridRow n g → y ≤ g → sampleCeilY y n ≤ g := by
-  have key : ∃ r k : Int, 0 ≤ k ∧ k < nYFrac n ∧ sampleCeilY y n = r * 65536 + yFracFirst n + k * stepYSmall n ∧
-      y ≤ sampleCeilY y n ∧
-      (∀ r' k' : Int, 0 ≤ k' → k' < nYFrac n → y ≤ r' * 65536 + yFracFirst n + k' * stepYSmall n →
-        sampleCeilY y n ≤ r' * 65536 + yFracFirst n + k' * stepYSmall n) := by
-    rcases hn with h | h | h <;> subst h <;>
-    simp only [sampleCeilY, fixedFrac, fixedFloor, fixedToInt, yFracFirst, yFracLast, stepYSmall, nYFrac, beq_iff_eq] at *
-    all_goals
-      generalize hq : (y % 65536 - _ + (_ - 1)) / _ = q
-      have hq1 := hq
-      have he : (y - y % 65536) / 65536 = y / 65536 := by omega
-      rw [he]
-      split
-      · split
-        · omega
-        · refine ⟨y / 65536 + 1, 0, by omega, by omega, by omega, by omega, ?_⟩
-          intro r' k' h1 h2 h3
-          by_cases hr : r' ≤ y / 65536 - 1
-          · omega
-          · by_cases hr2 : r' ≤ y / 65536
-            · omega
-            · omega
-      · refine ⟨y / 65536, q, by omega, by omega, by omega, by omega, ?_⟩
-        intro r' k' h1 h2 h3
-        by_cases hr : r' ≤ y / 65536 - 1
-        · omega
-        · by_cases hr2 : r' ≤ y / 65536
-          · omega
-          · omega
-  obtain ⟨r, k, hk0, hk, heq, hge, hmin⟩ := key
-  refine ⟨heq ▸ isGridRow_mk n r k hk0 hk, hge, ?_⟩
-  rintro g ⟨r', k', hk', rfl⟩ hyg
-  exact hmin r' k' (by omega) hk' hyg
+    IsGridRow n (sampleCeilY y n) ∧ y ≤ sampleCeilY y n ∧ ∀ g, IsGridRow n g → y ≤ g → sampleCeilY y n ≤ g :=
+  Pixman.Lemmas.TrapSetup.sampleCeilY_grid n hn y h
 
 theorem sampleCeilY_saturates (n : Nat) (hn : Depth n) (y : Int) (h : 2147418112 + yFracLast n < y)
-    (h2 : y ≤ 2147483647) : sampleCeilY y n = 2147483647 := by
-  rcases hn with h | h | h <;> subst h <;>
-  simp only [sampleCeilY, fixedFrac, fixedFloor, fixedToInt, yFracFirst, yFracLast, stepYSmall, beq_iff_eq] at *
-  all_goals
-    generalize hq : (y % 65536 - _ + (_ - 1)) / _ = q
-    have hq1 := hq
-    have he : (y - y % 65536) / 65536 = y / 65536 := by omega
-    rw [he]
-    split
-    · split <;> omega
-    · omega
+    (h2 : y ≤ 2147483647) : sampleCeilY y n = 2147483647 :=
+  Pixman.Lemmas.TrapSetup.sampleCeilY_saturates n hn y h h2
 
 theorem sampleFloorY_grid (n : Nat) (hn : Depth n) (y : Int) (h : -2147483648 + yFracFirst n < y) (h2 : y ≤ 2147483647) :
-    IsGridRow n (sampleFloorY y n) ∧ sampleFloorY y n < y ∧ ∀ g, IsGridRow n g → g < y → g ≤ sampleFloorY y n := by
-  have key : ∃ r k : Int, 0 ≤ k ∧ k < nYFrac n ∧ sampleFloorY y n = r * 65536 + yFracFirst n + k * stepYSmall n ∧
-      sampleFloorY y n < y ∧
-      (∀ r' k' : Int, 0 ≤ k' → k' < nYFrac n → r' * 65536 + yFracFirst n + k' * stepYSmall n < y →
-        r' * 65536 + yFracFirst n + k' * stepYSmall n ≤ sampleFloorY y n) := by
-    rcases hn with h | h | h <;> subst h <;>
-    simp only [sampleFloorY, wrap32, fixedFrac, fixedFloor, fixedToInt, yFracFirst, yFracLast, stepYSmall, nYFrac, beq_iff_eq] at *
-    all_goals
-      generalize hq : (y % 65536 - 1 - _) / _ = q
-      have hq1 := hq
-      have he : (y - y % 65536) / 65536 = y / 65536 := by omega
-      rw [he]
-      split
-      · split
-        · omega
-        · have hw : (y - y % 65536 - 65536 + 2147483648) % 4294967296 - 2147483648 = y - y % 65536 - 65536 := by omega
-          rw [hw]
-          first
-            | refine ⟨y / 65536 - 1, 0, by omega, by omega, by omega, by omega, ?_⟩
-            | refine ⟨y / 65536 - 1, 2, by omega, by omega, by omega, by omega, ?_⟩
-            | refine ⟨y / 65536 - 1, 14, by omega, by omega, by omega, by omega, ?_⟩
-          all_goals
-            intro r' k' h1 h2 h3
-            by_cases hr : r' ≤ y / 65536 - 1
-            · omega
-            · by_cases hr2 : r' ≤ y / 65536
-              · omega
-              · omega
-      · refine ⟨y / 65536, q, by omega, by omega, by omega, by omega, ?_⟩
-        intro r' k' h1 h2 h3
-        by_cases hr : r' ≤ y / 65536 - 1
-        · omega
-        · by_cases hr2 : r' ≤ y / 65536
-          · omega
-          · omega
-  obtain ⟨r, k, hk0, hk, heq, hge, hmin⟩ := key
-  refine ⟨heq ▸ isGridRow_mk n r k hk0 hk, hge, ?_⟩
-  rintro g ⟨r', k', hk', rfl⟩ hyg
-  exact hmin r' k' (by omega) hk' hyg
+    IsGridRow n (sampleFloorY y n) ∧ sampleFloorY y n < y ∧ ∀ g, IsGridRow n g → g < y → g ≤ sampleFloorY y n :=
+  Pixman.Lemmas.TrapSetup.sampleFloorY_grid n hn y h h2
 
 /-- saturation at the bottom of the range: no grid row below `y` is representable; the result is
     `INT32_MIN`, which lies below every grid row -/
 theorem sampleFloorY_saturates (n : Nat) (hn : Depth n) (y : Int) (h1 : -2147483648 ≤ y)
     (h : y ≤ -2147483648 + yFracFirst n) :
-    sampleFloorY y n = -2147483648 ∧ ∀ g, IsGridRow n g → -2147483648 ≤ g → sampleFloorY y n < g := by
-  have hv : sampleFloorY y n = -2147483648 := by
-    rcases hn with h | h | h <;> subst h <;>
-    simp only [sampleFloorY, wrap32, fixedFrac, fixedFloor, fixedToInt, yFracFirst, yFracLast, stepYSmall, beq_iff_eq] at *
-    all_goals
-      generalize hq : (y % 65536 - 1 - _) / _ = q
-      have hq1 := hq
-      have he : (y - y % 65536) / 65536 = y / 65536 := by omega
-      rw [he]
-      split
-      · split <;> omega
-      · omega
-  refine ⟨hv, ?_⟩
-  intro g hg hg0
-  rw [hv]
-  rw [isGridRow_iff n hn] at hg
-  rcases hn with h | h | h <;> subst h <;> simp only [yFracFirst, yFracLast, stepYSmall] at hg <;> omega
+    sampleFloorY y n = -2147483648 ∧ ∀ g, IsGridRow n g → -2147483648 ≤ g → sampleFloorY y n < g :=
+  Pixman.Lemmas.TrapSetup.sampleFloorY_saturates n hn y h1 h
 
 /-- After repair a0ed323 no runaway / out-of-image row is reachable: whenever the row loop is entered
     (`b ≥ t`) for a clamped top `T ≥ 0` and a bottom `B` whose pixel row is inside the image (what
@@ -165,21 +70,8 @@ theorem sampleRows_in_image (n : Nat) (hn : Depth n) (height T B : Int)
     (hT : 0 ≤ T ∧ T ≤ 2147483647) (hB : -2147483648 ≤ B ∧ B ≤ 2147483647) (hBh : B / 65536 < height)
     (hrun : sampleFloorY B n ≥ sampleCeilY T n) :
     IsGridRow n (sampleCeilY T n) ∧ IsGridRow n (sampleFloorY B n) ∧ 0 ≤ sampleCeilY T n / 65536 ∧
-    sampleFloorY B n / 65536 < height := by
-  have hcge : T ≤ sampleCeilY T n := by
-    by_cases h : T ≤ 2147418112 + yFracLast n
-    · exact (sampleCeilY_grid n hn T h).2.1
-    · rw [sampleCeilY_saturates n hn T (by omega) hT.2]; omega
-  by_cases hb : -2147483648 + yFracFirst n < B
-  · obtain ⟨hbg, hblt, _⟩ := sampleFloorY_grid n hn B hb hB.2
-    by_cases ht : T ≤ 2147418112 + yFracLast n
-    · obtain ⟨htg, _, _⟩ := sampleCeilY_grid n hn T ht
-      refine ⟨htg, hbg, by omega, ?_⟩
-      have : sampleFloorY B n / 65536 ≤ B / 65536 := Int.ediv_le_ediv (by decide) (by omega)
-      omega
-    · rw [sampleCeilY_saturates n hn T (by omega) hT.2] at hrun; omega
-  · have := (sampleFloorY_saturates n hn B hB.1 (by omega)).1
-    omega
+    sampleFloorY B n / 65536 < height :=
+  Pixman.Lemmas.TrapSetup.sampleRows_in_image n hn height T B hT hB hBh hrun
 
 example : sampleFloorY (-2147483647) 8 = -2147483648 := by decide
 example : sampleCeilY 2147483000 8 = 2147483647 := by decide
@@ -325,18 +217,56 @@ theorem edge_step_loses_fraction :
   `rowCount` (Spec) counts the sample columns `j` of the pixel with `lx ≤ colPos n i j − δ < rx`.
   The statements include the `lx < 0` clamp and the right-edge clamp (`rx` beyond the last pixel);
   `lx`, `rx` are arbitrary integers (a8/a4) — crossed edges (`rx ≤ lx`) add nothing.
-  NOT proved (hence no `rasterizeEdges = Spec.addShape` theorem; named gap `R3-spanfill`): that the
-  a8 span-fill bookkeeping (`row8Fill`/`flushFill` inside `edgesLoop8`) equals the naive loop
-  `edgesLoop8Naive` over `row8`, and the induction over the sample rows of a whole shape.  Both are
-  covered by the correspondence: `pixdrv` evaluates the span-fill loop and the naive loop on every
-  a8 request (flag `f` when they differ) and the Spec count on every request. -/
+  The a8 span-fill bookkeeping (`row8Fill`/`flushFill` inside `edgesLoop8`: `fill_start/fill_end/fill_size`,
+  the "beyond what we saved" branch, the trimming of the saved span, the flush at the end of each
+  pixel row, `MEMSET_WRAPPED (0xff)` for `fill_size == N_Y_FRAC`) is proved equal to the naive loop:
+  `spanfill_eq_naive` for every sequence of sub-row spans of one pixel row, `edgesLoop8_eq_naive` for
+  the whole row loop.  `rasterizeEdges_rows` is the induction over ALL sample rows between two grid
+  rows; `walkRows_inv` carries the edge invariant of R2 along the loop; their compositions are
+  `rasterizeEdges_walked` (exact-invariant form, lost fraction included) and
+  `rasterizeEdges_eq_addShape` (= `Spec.addShape`).  The correspondence still evaluates the span-fill
+  loop and the naive loop on every a8 request (flag `f`) and the Spec count on every request. -/
 
-/-- partial: the row body of `rasterize_edges_8` *without* the span-fill bookkeeping (gap `R3-spanfill`) -/
-theorem row8_spec_partial (row : Array Nat) (width : Nat) (lx rx : Int) (hsize : row.size = width)
+/-- R3 for a8: the row body of `rasterize_edges_8` in its naive form (`row8`); by `spanfill_eq_naive` /
+    `edgesLoop8_eq_naive` this is what the span-fill bookkeeping computes -/
+theorem row8_spec (row : Array Nat) (width : Nat) (lx rx : Int) (hsize : row.size = width)
     (hw : width ≤ 32767) (i : Nat) (hi : i < width) (hv : row[i]'(by rw [hsize]; exact hi) ≤ 255) :
     (row8 row width lx rx)[i]'(by rw [Pixman.Lemmas.TrapRow.row8_size, hsize]; exact hi) =
       pixelValue 8 (row[i]'(by rw [hsize]; exact hi)) (rowCount 8 lx rx i) :=
   Pixman.Lemmas.TrapRow.row8_spec row width lx rx hsize hw i hi hv
+
+/-- The span-fill loop of `rasterize_edges_8` over the sub-row spans `(l->x, r->x)` of one pixel row,
+    followed by the flush, equals the naive per-sub-row accumulation — for EVERY sequence of spans
+    (any number, any order, crossed or clipped spans included), any row contents and any width.
+    (Saturating addition of non-negative contributions is order independent; `15 · 17 = 255`.) -/
+theorem spanfill_eq_naive (row : Array Nat) (width : Int) (spans : List (Int × Int)) :
+    (let st := spans.foldl (fun (st : Array Nat × Fill) sp => row8Fill st.1 width sp.1 sp.2 st.2) (row, {})
+     flushFill st.1 st.2) =
+    spans.foldl (fun row sp => row8 row width sp.1 sp.2) row :=
+  Pixman.Lemmas.TrapFill.fillSpans_flush row width spans
+
+/-- non-vacuity: three sub-rows with long spans (the saved span is trimmed on both sides by the second,
+    the third lies beyond it); the pending span is really used: before the flush the pixels 12…18
+    are not yet written -/
+example :
+    (let st := [((67000 : Int), (657000 : Int)), (133000, 590000), (723000, 1246000)].foldl
+        (fun (st : Array Nat × Fill) sp => row8Fill st.1 20 sp.1 sp.2 st.2) (Array.replicate 20 100, {})
+     (st, flushFill st.1 st.2)) =
+    ((#[100, 117, 133, 134, 134, 134, 134, 134, 134, 117, 100, 116, 100, 100, 100, 100, 100, 100, 100, 100],
+      { start := 12, stop := 19, size := 1 }),
+     #[100, 117, 133, 134, 134, 134, 134, 134, 134, 117, 100, 116, 117, 117, 117, 117, 117, 117, 117, 100]) := by
+  decide
+
+/-- `rasterize_edges_8` as written (span-fill state carried across the sub-rows of a pixel row, flushed
+    at its end) = the naive loop, for all edges, between grid rows `t ≤ b` (what
+    `pixman_rasterize_trapezoid` / `pixman_add_traps` pass: `sampleRows_in_image`) -/
+theorem edgesLoop8_eq_naive (t b : Int) (l r : Edge) (img : Img) (ht : IsGridRow 8 t) (hb : IsGridRow 8 b)
+    (htb : t ≤ b) (ht0 : -2147483648 ≤ t) (hb2 : b ≤ 2147483647) :
+    edgesLoop8 b (rowFuel 8 t b) t l r {} img = edgesLoop8Naive b (rowFuel 8 t b) t l r img :=
+  Pixman.Lemmas.TrapRows.edgesLoop8_eq_naive t b l r img ht hb htb ht0 hb2
+
+example : IsGridRow 8 2185 ∧ IsGridRow 8 (65536 + 63351) :=
+  ⟨⟨0, 0, by decide, by decide⟩, ⟨1, 14, by decide, by decide⟩⟩
 
 theorem row4_spec (row : Array Nat) (width : Nat) (lx rx : Int) (hsize : row.size = width)
     (hw : width ≤ 32767) (i : Nat) (hi : i < width) (hv : row[i]'(by rw [hsize]; exact hi) ≤ 15) :
@@ -365,6 +295,246 @@ example : row8 #[0, 250, 0, 7] 4 32768 147456 = #[8, 255, 4, 7] ∧
       [8, 255, 4, 7] := by
   decide
 
+/-! ## R3, all sample rows — `pixman_rasterize_edges` adds the sample count of the whole shape
+
+  `ImgWF n img`: `height` rows of `width ≤ 32767` values `≤ MAX_ALPHA (n)`.  `WalkIs … xl xr`: on every row
+  the loop visits (`walkRows`, the same list the driver uses for its flag `t`) the two walked abscissae
+  are `xl y`, `xr y`.  `X1Ok`: the a1 row body's `x + X_FRAC_FIRST (1) - e` fits an `int` (vacuous for a4/a8).
+  `addSpans` is `Spec.addShape` with arbitrary per-row abscissae (`addShape_eq_addSpans`, by `rfl`).
+  `hrows` says that the grid rows of the image inside `[top, bottom)` are exactly those in `[t, b]` —
+  what `sampleCeilY_grid` / `sampleFloorY_grid` give for `t = sampleCeilY (max top 0)`,
+  `b = sampleFloorY (min bottom (height·65536 − 1))`. -/
+
+open Pixman.Lemmas.TrapShape in
+/-- induction over the sample rows: the loop of `rasterize_edges_N` (for a8 the real span-fill loop,
+    through `edgesLoop8_eq_naive`) between grid rows `t ≤ b` inside the image adds to every pixel the
+    number of grid samples between the walked abscissae of its rows, saturating; nothing else changes -/
+theorem rasterizeEdges_rows (n : Nat) (hn : Depth n) (img : Img) (hwf : ImgWF n img) (l r : Edge) (t b : Int)
+    (ht : IsGridRow n t) (hb : IsGridRow n b) (htb : t ≤ b) (ht0 : 0 ≤ t) (hbh : b / 65536 < (img.height : Int))
+    (hb2 : b ≤ 2147483647) (top bottom : Int) (xl xr : Int → Int)
+    (hrows : ∀ g, IsGridRow n g → 0 ≤ g / 65536 → g / 65536 < (img.height : Int) →
+      ((top ≤ g ∧ g < bottom) ↔ (t ≤ g ∧ g ≤ b)))
+    (hwalk : WalkIs n b (rowFuel n t b) t l r xl xr) (hx1 : X1Ok n t b xl xr) :
+    rasterizeEdges n img l r t b = { img with rows := addSpans n img.width img.height img.rows top bottom xl xr } :=
+  Pixman.Lemmas.TrapShape.rasterizeEdges_rows n hn img hwf l r t b ht hb htb ht0 hbh hb2 top bottom xl xr hrows hwalk hx1
+
+open Pixman.Lemmas.TrapShape in
+theorem addShape_eq_addSpans (n w h : Nat) (img : Array (Array Nat)) (s : Shape) :
+    addShape n w h img s = addSpans n w h img s.top s.bottom s.left.snapX s.right.snapX := rfl
+
+open Pixman.Lemmas.TrapShape in
+/-- R2 along the row loop (`stepSmall_inv` / `stepBig_inv` iterated): edges that represent the abscissae
+    `(Al + y·DXl)/dyl`, `(Ar + y·DXr)/dyr` on the first row represent `(Al + g·DXl)/dyl`, `(Ar + g·DXr)/dyr`
+    on every visited row `g`, every visited row is a grid row in `[y, b]`, and an edge of integral slope
+    (`Stiff`) keeps its initial error term.  `Al`, `Ar` are arbitrary: they may contain the fraction
+    lost by `pixman_edge_step` (`edgeInit_inv`). -/
+theorem walkRows_inv (n : Nat) (hn : Depth n) (b : Int) (hb : IsGridRow n b) (hb2 : b ≤ 2147483647)
+    (Al DXl Ar DXr dyl dyr sl sr : Int) (fuel : Nat) (y : Int) (l r : Edge) (hy : IsGridRow n y) (hyb : y ≤ b)
+    (hy0 : -2147483648 ≤ y)
+    (hIl : EdgeInv l (Al + y * DXl)) (hSl : SlopeInv l DXl n) (hdl : l.dy = dyl) (hsl : l.signdx = sl)
+    (hIr : EdgeInv r (Ar + y * DXr)) (hSr : SlopeInv r DXr n) (hdr : r.dy = dyr) (hsr : r.signdx = sr)
+    (hfit : ∀ g, IsGridRow n g → y ≤ g → g ≤ b → FitAt dyl (Al + g * DXl) ∧ FitAt dyr (Ar + g * DXr)) :
+    ∀ p ∈ walkRows n b fuel y l r, IsGridRow n p.1 ∧ y ≤ p.1 ∧ p.1 ≤ b ∧
+      ∃ el er : Edge, el.x = p.2.1 ∧ er.x = p.2.2 ∧
+        EdgeInv el (Al + p.1 * DXl) ∧ el.dy = dyl ∧ el.signdx = sl ∧
+        EdgeInv er (Ar + p.1 * DXr) ∧ er.dy = dyr ∧ er.signdx = sr ∧
+        (Stiff l → el.e = -dyl) ∧ (Stiff r → er.e = -dyr) :=
+  Pixman.Lemmas.TrapShape.walkRows_inv n hn b hb hb2 Al DXl Ar DXr dyl dyr sl sr fuel y l r hy hyb hy0
+    hIl hSl hdl hsl hIr hSr hdr hsr hfit
+
+open Pixman.Lemmas.TrapShape in
+/-- Composition in the exact-invariant form of the walker (lost fraction included in `Al`, `Ar`):
+    on every row `g` the count is taken between `⌊(Al + g·DXl)/dyl⌋` and `⌊(Ar + g·DXr)/dyr⌋`, provided no
+    right-leaning edge of non-integral slope passes exactly through a lattice point on a visited row
+    (there the walker's `x` depends on its history: `edge_state_depends_on_history`). -/
+theorem rasterizeEdges_walked (n : Nat) (hn : Depth n) (img : Img) (hwf : ImgWF n img) (l r : Edge) (t b : Int)
+    (ht : IsGridRow n t) (hb : IsGridRow n b) (htb : t ≤ b) (ht0 : 0 ≤ t) (hbh : b / 65536 < (img.height : Int))
+    (hb2 : b ≤ 2147483647) (top bottom : Int)
+    (hrows : ∀ g, IsGridRow n g → 0 ≤ g / 65536 → g / 65536 < (img.height : Int) →
+      ((top ≤ g ∧ g < bottom) ↔ (t ≤ g ∧ g ≤ b)))
+    (Al DXl Ar DXr : Int)
+    (hIl : EdgeInv l (Al + t * DXl)) (hSl : SlopeInv l DXl n) (hIr : EdgeInv r (Ar + t * DXr)) (hSr : SlopeInv r DXr n)
+    (hfit : ∀ g, IsGridRow n g → t ≤ g → g ≤ b → FitAt l.dy (Al + g * DXl) ∧ FitAt r.dy (Ar + g * DXr))
+    (hnotie : ∀ g, IsGridRow n g → t ≤ g → g ≤ b →
+      ((Al + g * DXl) % l.dy ≠ 0 ∨ l.signdx = -1 ∨ Stiff l) ∧ ((Ar + g * DXr) % r.dy ≠ 0 ∨ r.signdx = -1 ∨ Stiff r))
+    (hx1 : X1Ok n t b (fun g => (Al + g * DXl) / l.dy) (fun g => (Ar + g * DXr) / r.dy)) :
+    rasterizeEdges n img l r t b =
+      { img with rows := (addSpans n img.width img.height img.rows top bottom
+          (fun g => (Al + g * DXl) / l.dy) (fun g => (Ar + g * DXr) / r.dy)) } :=
+  Pixman.Lemmas.TrapShape.rasterizeEdges_walked n hn img hwf l r t b ht hb htb ht0 hbh hb2 top bottom hrows
+    Al DXl Ar DXr hIl hSl hIr hSr hfit hnotie hx1
+
+open Pixman.Lemmas.TrapShape in
+/-- Composition with the Spec: edges that represent the exact abscissae of the shape's lines on the
+    first row (nothing lost by `pixman_edge_step`: `lost = 0` in `edgeInit_inv`), and on every visited row
+    each edge either misses the lattice points, or leans left, or has integral slope (vertical edges):
+    `pixman_rasterize_edges` over all sample rows = `Spec.addShape`.
+    (Outside these hypotheses the equality is false for the code — findings T01… of checks/C12.py.) -/
+theorem rasterizeEdges_eq_addShape (n : Nat) (hn : Depth n) (img : Img) (hwf : ImgWF n img) (s : Shape) (l r : Edge)
+    (t b : Int) (ht : IsGridRow n t) (hb : IsGridRow n b) (htb : t ≤ b) (ht0 : 0 ≤ t)
+    (hbh : b / 65536 < (img.height : Int)) (hb2 : b ≤ 2147483647)
+    (hrows : ∀ g, IsGridRow n g → 0 ≤ g / 65536 → g / 65536 < (img.height : Int) →
+      ((s.top ≤ g ∧ g < s.bottom) ↔ (t ≤ g ∧ g ≤ b)))
+    (hdyl : 0 < s.left.yBot - s.left.yTop) (hdyr : 0 < s.right.yBot - s.right.yTop)
+    (hdl : l.dy = s.left.yBot - s.left.yTop) (hdr : r.dy = s.right.yBot - s.right.yTop)
+    (hIl : EdgeInv l (lineNum s.left t)) (hSl : SlopeInv l (s.left.xBot - s.left.xTop) n)
+    (hIr : EdgeInv r (lineNum s.right t)) (hSr : SlopeInv r (s.right.xBot - s.right.xTop) n)
+    (hfit : ∀ g, IsGridRow n g → t ≤ g → g ≤ b → FitAt l.dy (lineNum s.left g) ∧ FitAt r.dy (lineNum s.right g))
+    (hnotie : ∀ g, IsGridRow n g → t ≤ g → g ≤ b →
+      (lineNum s.left g % (s.left.yBot - s.left.yTop) ≠ 0 ∨ (l.signdx = -1 ∧ s.left.xBot - s.left.xTop < 0) ∨
+        (Stiff l ∧ (s.left.xBot - s.left.xTop) % (s.left.yBot - s.left.yTop) = 0)) ∧
+      (lineNum s.right g % (s.right.yBot - s.right.yTop) ≠ 0 ∨ (r.signdx = -1 ∧ s.right.xBot - s.right.xTop < 0) ∨
+        (Stiff r ∧ (s.right.xBot - s.right.xTop) % (s.right.yBot - s.right.yTop) = 0)))
+    (hx1 : X1Ok n t b s.left.snapX s.right.snapX) :
+    rasterizeEdges n img l r t b = { img with rows := addShape n img.width img.height img.rows s } :=
+  Pixman.Lemmas.TrapShape.rasterizeEdges_eq_addShape n hn img hwf s l r t b ht hb htb ht0 hbh hb2 hrows hdyl hdyr hdl hdr
+    hIl hSl hIr hSr hfit hnotie hx1
+
+open Pixman.Lemmas.TrapShape in
+/-- non-vacuity of `rasterizeEdges_eq_addShape`: an a8 image of 4×1 pixels, a vertical left edge at
+    `x = 40000` (integral slope: `Stiff`), a left-leaning right edge from `(200000, 0)` to `(150000, 65536)`,
+    all 15 sample rows of the pixel row; the result is `#[#[105, 255, 171, 0]]` -/
+example :
+    rasterizeEdges 8 (Img.mk' 4 1 0) (edgeInit 8 2185 40000 0 40000 65536) (edgeInit 8 2185 200000 0 150000 65536) 2185 63351 =
+      { Img.mk' 4 1 0 with rows := (addShape 8 4 1 (Img.mk' 4 1 0).rows
+          ⟨0, 65536, ⟨40000, 0, 40000, 65536⟩, ⟨200000, 0, 150000, 65536⟩⟩) } := by
+  have hl : (edgeInit 8 2185 40000 0 40000 65536) =
+      { x := 40000, e := -65536, stepx := 0, signdx := 1, dy := 65536, dx := 0, stepxSmall := 0, stepxBig := 0,
+        dxSmall := 0, dxBig := 0 } := by decide
+  have hr : (edgeInit 8 2185 200000 0 150000 65536) =
+      { x := 198332, e := -64048, stepx := 0, signdx := -1, dy := 65536, dx := 50000, stepxSmall := -3333,
+        stepxBig := -3334, dxSmall := 18512, dxBig := 2976 } := by decide
+  rw [hl, hr]
+  have hgrid : ∀ g, IsGridRow 8 g → 2185 ≤ g → g ≤ 63351 → 0 ≤ g ∧ g ≤ 65536 := fun g _ h1 h2 => by omega
+  exact Pixman.Props.C12.rasterizeEdges_eq_addShape 8 (Or.inr (Or.inr rfl)) (Img.mk' 4 1 0) (imgWF_mk' 8 4 1 0 (by decide) (by decide))
+    ⟨0, 65536, ⟨40000, 0, 40000, 65536⟩, ⟨200000, 0, 150000, 65536⟩⟩ _ _ 2185 63351
+    ⟨0, 0, by decide, by decide⟩ ⟨0, 14, by decide, by decide⟩ (by decide) (by decide) (by decide) (by decide)
+    (fun g hg h0 h1 => by
+      rw [isGridRow_iff 8 (Or.inr (Or.inr rfl))] at hg
+      simp only [yFracFirst, yFracLast, stepYSmall, Img.mk'] at *
+      omega)
+    (by decide) (by decide) rfl rfl
+    ⟨by decide, by decide, by decide, by decide, by decide, by decide⟩
+    ⟨by decide, by decide, by decide⟩
+    ⟨by decide, by decide, by decide, by decide, by decide, by decide⟩
+    ⟨by decide, by decide, by decide⟩
+    (fun g _ h1 h2 => by simp only [FitAt, lineNum]; omega)
+    (fun g _ h1 h2 => ⟨Or.inr (Or.inr ⟨⟨rfl, rfl, rfl⟩, by decide⟩), Or.inr (Or.inl ⟨rfl, by decide⟩)⟩)
+    (fun h => absurd h (by decide))
+
+/-! ## R3 at the entry points — `pixman_rasterize_trapezoid`, `pixman_add_traps` (offsets 0)
+
+  `firstRow`/`lastRow`: the first and last sample row as the entry points compute them.  `InitOK n t e`: the
+  no-overflow conditions of `pixman_edge_init` for the line `e` started at row `t` (those of `edgeInit_inv`)
+  and the condition under which `pixman_edge_step` loses nothing: a right-leaning line walked downwards from
+  above `t` (or a left-leaning one walked upwards) starts at its top or has integral slope.  `RowsOK n t b e`: on every sample row the abscissa fits an `int` and the
+  line misses the lattice points, or leans left, or has integral slope and is walked downwards.
+  Under these hypotheses (the region in which the library has no finding T01…) the whole pipeline
+  `sample_ceil_y/floor_y → edge_init ×2 → rasterize_edges` adds exactly `Spec.addShape`.
+  `rasterizeTrapezoid_nothing`: no sample row inside.  `rasterizeTrapezoid_offsets`: offsets that do not wrap are a
+  translation.  `addTrapezoids_eq_addShapes`, `addTraps_eq_addShapes`: lists.  `addTrap_offsets`: offsets of
+  `pixman_add_traps`. -/
+
+open Pixman.Lemmas.TrapShape Pixman.Lemmas.TrapSetup Pixman.Lemmas.TrapTri in
+theorem rasterizeTrapezoid_eq_addShape (n : Nat) (hn : Depth n) (img : Img) (hwf : ImgWF n img)
+    (hh : img.height ≤ 32767) (tr : Trapezoid) (hv : tr.valid = true)
+    (htop : InI32 tr.top) (hbot : InI32 tr.bottom)
+    (hc : InI32 tr.left.p1.x ∧ InI32 tr.left.p1.y ∧ InI32 tr.left.p2.x ∧ InI32 tr.left.p2.y ∧
+          InI32 tr.right.p1.x ∧ InI32 tr.right.p1.y ∧ InI32 tr.right.p2.x ∧ InI32 tr.right.p2.y)
+    (hbt : lastRow n img.height tr.bottom ≥ firstRow n tr.top)
+    (hl : InitOK n (firstRow n tr.top) (lineOf tr.left)) (hr : InitOK n (firstRow n tr.top) (lineOf tr.right))
+    (hlr : RowsOK n (firstRow n tr.top) (lastRow n img.height tr.bottom) (lineOf tr.left))
+    (hrr : RowsOK n (firstRow n tr.top) (lastRow n img.height tr.bottom) (lineOf tr.right))
+    (hx1 : X1Ok n (firstRow n tr.top) (lastRow n img.height tr.bottom) (lineOf tr.left).snapX (lineOf tr.right).snapX) :
+    rasterizeTrapezoid n img tr 0 0 = { img with rows := addShape n img.width img.height img.rows (shapeOf tr) } :=
+  Pixman.Lemmas.TrapSetup.rasterizeTrapezoid_eq_addShape n hn img hwf hh tr hv htop hbot hc hbt hl hr hlr hrr hx1
+
+open Pixman.Lemmas.TrapShape Pixman.Lemmas.TrapSetup in
+/-- `pixman_add_traps`: one `pixman_trap_t` (`top = {l, r, y}`, `bot = {l, r, y}`; no validity test in the code) -/
+theorem addTrap_eq_addShape (n : Nat) (hn : Depth n) (img : Img) (hwf : ImgWF n img)
+    (hh : img.height ≤ 32767) (tr : Trap)
+    (hc : InI32 tr.topL ∧ InI32 tr.topR ∧ InI32 tr.topY ∧ InI32 tr.botL ∧ InI32 tr.botR ∧ InI32 tr.botY)
+    (hbt : lastRow n img.height tr.botY ≥ firstRow n tr.topY)
+    (hl : InitOK n (firstRow n tr.topY) (trapShape tr).left) (hr : InitOK n (firstRow n tr.topY) (trapShape tr).right)
+    (hlr : RowsOK n (firstRow n tr.topY) (lastRow n img.height tr.botY) (trapShape tr).left)
+    (hrr : RowsOK n (firstRow n tr.topY) (lastRow n img.height tr.botY) (trapShape tr).right)
+    (hx1 : X1Ok n (firstRow n tr.topY) (lastRow n img.height tr.botY) (trapShape tr).left.snapX (trapShape tr).right.snapX) :
+    addTrap n img 0 0 tr = { img with rows := addShape n img.width img.height img.rows (trapShape tr) } :=
+  Pixman.Lemmas.TrapSetup.addTrap_eq_addShape n hn img hwf hh tr hc hbt hl hr hlr hrr hx1
+
+open Pixman.Lemmas.TrapShape Pixman.Lemmas.TrapSetup in
+/-- non-vacuity: an a8 image of 4×2 pixels and the `pixman_trap_t` with top span `[40000, 200000]` at `y = 0` and
+    bottom span `[40000, 150000]` at `y = 131072` (vertical left edge, left-leaning right edge) -/
+example : addTrap 8 (Img.mk' 4 2 0) 0 0 ⟨40000, 200000, 0, 40000, 150000, 131072⟩ =
+    { Img.mk' 4 2 0 with rows := (addShape 8 4 2 (Img.mk' 4 2 0).rows (trapShape ⟨40000, 200000, 0, 40000, 150000, 131072⟩)) } := by
+  have ht : firstRow 8 0 = 2185 := by decide
+  have hb : lastRow 8 ((Img.mk' 4 2 0).height : Int) 131072 = 128887 := by decide
+  have hgrid : ∀ g, IsGridRow 8 g → 2185 ≤ g → g ≤ 128887 → 0 ≤ g ∧ g ≤ 131072 := fun g _ h1 h2 => by omega
+  apply Pixman.Props.C12.addTrap_eq_addShape 8 (Or.inr (Or.inr rfl)) (Img.mk' 4 2 0) (imgWF_mk' 8 4 2 0 (by decide) (by decide))
+    (by decide) ⟨40000, 200000, 0, 40000, 150000, 131072⟩
+  · simp only [InI32]; decide
+  · simp only [ht, hb]; decide
+  · simp only [ht, trapShape]
+    exact ⟨by decide, by decide, by decide, by decide, by decide, by decide, by decide⟩
+  · simp only [ht, trapShape]
+    exact ⟨by decide, by decide, by decide, by decide, by decide, by decide, by decide⟩
+  · simp only [ht, hb, trapShape]
+    exact ⟨fun g _ h1 h2 => by simp only [FitAt, lineNum]; omega,
+           fun g _ h1 h2 => Or.inr (Or.inr ⟨by decide, by decide⟩)⟩
+  · simp only [ht, hb, trapShape]
+    exact ⟨fun g _ h1 h2 => by simp only [FitAt, lineNum]; omega,
+           fun g _ h1 h2 => Or.inr (Or.inl (by decide))⟩
+  · exact fun h => absurd h (by decide)
+
+open Pixman.Lemmas.TrapShape Pixman.Lemmas.TrapSetup Pixman.Lemmas.TrapTri in
+/-- when no sample row of the image is inside the trapezoid, nothing is drawn and the Spec adds nothing -/
+theorem rasterizeTrapezoid_nothing (n : Nat) (hn : Depth n) (img : Img) (hwf : ImgWF n img)
+    (hh : img.height ≤ 32767) (tr : Trapezoid) (htop : InI32 tr.top) (hbot : InI32 tr.bottom)
+    (hbt : lastRow n img.height tr.bottom < firstRow n tr.top) :
+    rasterizeTrapezoid n img tr 0 0 = img ∧ addShape n img.width img.height img.rows (shapeOf tr) = img.rows :=
+  Pixman.Lemmas.TrapSetup.rasterizeTrapezoid_nothing n hn img hwf hh tr htop hbot hbt
+
+open Pixman.Lemmas.TrapSetup in
+/-- offsets that do not wrap: `pixman_rasterize_trapezoid (image, trap, x_off, y_off)` rasterises the trapezoid
+    moved by `(x_off, y_off)` pixels (for every depth and image, inside or outside the exact region) -/
+theorem rasterizeTrapezoid_offsets (n : Nat) (img : Img) (tr : Trapezoid) (xOff yOff : Int)
+    (hx : InI32 (xOff * 65536)) (hy : InI32 (yOff * 65536))
+    (htop : InI32 (tr.top + yOff * 65536)) (hbot : InI32 (tr.bottom + yOff * 65536))
+    (hc : InI32 (tr.left.p1.x + xOff * 65536) ∧ InI32 (tr.left.p1.y + yOff * 65536) ∧
+          InI32 (tr.left.p2.x + xOff * 65536) ∧ InI32 (tr.left.p2.y + yOff * 65536) ∧
+          InI32 (tr.right.p1.x + xOff * 65536) ∧ InI32 (tr.right.p1.y + yOff * 65536) ∧
+          InI32 (tr.right.p2.x + xOff * 65536) ∧ InI32 (tr.right.p2.y + yOff * 65536)) :
+    rasterizeTrapezoid n img tr xOff yOff = rasterizeTrapezoid n img (moveTz tr (xOff * 65536) (yOff * 65536)) 0 0 :=
+  Pixman.Lemmas.TrapSetup.rasterizeTrapezoid_offsets n img tr xOff yOff hx hy htop hbot hc
+
+open Pixman.Lemmas.TrapShape Pixman.Lemmas.TrapSetup Pixman.Lemmas.TrapTri in
+/-- `pixman_add_trapezoids (image, 0, 0, n, traps)`: every valid trapezoid in the exact region (`TzExact`: int32
+    coordinates and either no sample row inside, or `InitOK`/`RowsOK`/`X1Ok` for both sides) — the image is the
+    Spec counts of the valid trapezoids added one after the other, the invalid ones skipped -/
+theorem addTrapezoids_eq_addShapes (n : Nat) (hn : Depth n) (traps : List Trapezoid) (img : Img) (hwf : ImgWF n img)
+    (hh : img.height ≤ 32767) (hall : ∀ tr ∈ traps, tr.valid = true → TzExact n img.height tr) :
+    addTrapezoids n img 0 0 traps =
+      { img with rows := traps.foldl (fun rows tr =>
+          if tr.valid then addShape n img.width img.height rows (shapeOf tr) else rows) img.rows } :=
+  Pixman.Lemmas.TrapSetup.addTrapezoids_eq_addShapes n hn traps img hwf hh hall
+
+open Pixman.Lemmas.TrapShape Pixman.Lemmas.TrapSetup in
+/-- `pixman_add_traps (image, 0, 0, n, traps)`: every trap in the exact region (`TrapExact`) — the image is the Spec
+    counts of the traps added one after the other -/
+theorem addTraps_eq_addShapes (n : Nat) (hn : Depth n) (traps : List Trap) (img : Img) (hwf : ImgWF n img)
+    (hh : img.height ≤ 32767) (hall : ∀ tr ∈ traps, TrapExact n img.height tr) :
+    addTraps n img 0 0 traps =
+      { img with rows := traps.foldl (fun rows tr => addShape n img.width img.height rows (trapShape tr)) img.rows } :=
+  Pixman.Lemmas.TrapSetup.addTraps_eq_addShapes n hn traps img hwf hh hall
+
+open Pixman.Lemmas.TrapSetup in
+/-- fixed-point offsets that do not wrap: an iteration of `pixman_add_traps` rasterises the moved trap -/
+theorem addTrap_offsets (n : Nat) (img : Img) (tr : Trap) (xo yo : Int)
+    (hc : InI32 (tr.topL + xo) ∧ InI32 (tr.topR + xo) ∧ InI32 (tr.topY + yo) ∧ InI32 (tr.botL + xo) ∧
+          InI32 (tr.botR + xo) ∧ InI32 (tr.botY + yo)) :
+    addTrap n img xo yo tr = addTrap n img 0 0 (moveTrap tr xo yo) :=
+  Pixman.Lemmas.TrapSetup.addTrap_offsets n img tr xo yo hc
+
 /-! ## R4 — abutting shapes tile seamlessly (consequences of "each sample is in exactly one")
 
   Stated on the Spec counts (`rowCount`, `pixelCount`) and, through R3, on the model's rows.
@@ -388,22 +558,131 @@ theorem pixelCount_edgesplit (n : Nat) (s : Shape) (m : EdgeLine)
     pixelCount n { s with right := m } c r + pixelCount n { s with left := m } c r = pixelCount n s c r :=
   Pixman.Lemmas.TrapRow.pixelCount_edgesplit n s m hm c r
 
+open Pixman.Lemmas.TrapSetup in
+/-- whole-pixel offsets commute with rasterisation (Spec level): the shape moved by `(ox, oy)` pixels has, at pixel
+    `(c + ox, r + oy)`, the sample count the original has at `(c, r)`; with `rasterizeTrapezoid_offsets` (the
+    rasteriser draws the moved trapezoid) and R3 this is the model-level statement -/
+theorem pixelCount_move (n : Nat) (s : Shape) (ox oy c r : Int) :
+    pixelCount n (moveShape s (ox * 65536) (oy * 65536)) (c + ox) (r + oy) = pixelCount n s c r :=
+  Pixman.Lemmas.TrapSetup.pixelCount_move n s ox oy c r
+
 /-- two spans abutting at `mx`, rasterised one after the other into an a8 row, give the row of the
     union span (model level, from R3) -/
-theorem row8_abut_partial (row : Array Nat) (width : Nat) (lx mx rx : Int) (hsize : row.size = width)
+theorem row8_abut (row : Array Nat) (width : Nat) (lx mx rx : Int) (hsize : row.size = width)
     (hw : width ≤ 32767) (h1 : lx ≤ mx) (h2 : mx ≤ rx) (i : Nat) (hi : i < width)
     (hv : row[i]'(by rw [hsize]; exact hi) ≤ 255) :
     (row8 (row8 row width lx mx) width mx rx)[i]'(by
         rw [Pixman.Lemmas.TrapRow.row8_size, Pixman.Lemmas.TrapRow.row8_size, hsize]; exact hi) =
     (row8 row width lx rx)[i]'(by rw [Pixman.Lemmas.TrapRow.row8_size, hsize]; exact hi) := by
   have hs1 : (row8 row width lx mx).size = width := by rw [Pixman.Lemmas.TrapRow.row8_size, hsize]
-  have e1 := row8_spec_partial row width lx mx hsize hw i hi hv
+  have e1 := row8_spec row width lx mx hsize hw i hi hv
   have hv1 : (row8 row width lx mx)[i]'(by rw [hs1]; exact hi) ≤ 255 := by
     rw [e1]; simp only [pixelValue, maxAlpha]; omega
-  rw [row8_spec_partial (row8 row width lx mx) width mx rx hs1 hw i hi hv1, e1, row8_spec_partial row width lx rx hsize hw i hi hv,
+  rw [row8_spec (row8 row width lx mx) width mx rx hs1 hw i hi hv1, e1, row8_spec row width lx rx hsize hw i hi hv,
     pixelValue_add, rowCount_split 8 lx mx rx i h1 h2]
 
 example : pixelCount 8 ⟨0, 131072, ⟨0, 0, 0, 131072⟩, ⟨98304, 0, 32768, 131072⟩⟩ 1 0 = 64 := by decide
+
+/-! ## R5 — `triangle_to_trapezoids`: the two trapezoids tile the triangle
+
+  Spec (`Spec/SampleGrid.lean`): `triInside` is the triangle's own inside test — a sample is inside when,
+  on its sample row, it lies between two sides of the triangle crossing that row (left inclusive, right
+  exclusive; a side crosses the rows `yTop ≤ sy < yBot`), symmetric in the three vertices, no
+  decomposition.  `tzCount` is the Spec count of a trapezoid as `pixman_add_trapezoids` treats it
+  (`pixelCount` of its shape when `pixman_trapezoid_valid`, 0 otherwise).
+  The theorem covers every vertex order (the three conditional swaps: sort by `(y, x)`, left/right by
+  the sign of the cross product) and the triangles with a horizontal side.  Hypotheses: the
+  coordinate differences `clockwise` computes in `pixman_fixed_t` do not wrap (`TriFits`), and the
+  vertices are not collinear (`area2 ≠ 0`).  For collinear vertices the statement is FALSE for this
+  Spec: a lattice tie of the walker's snapping (`snapX`) at the middle vertex makes the two
+  coincident sides differ by one lattice unit, `triInside` then holds one sample that the code's
+  left/right assignment leaves out (both draw nothing else). -/
+
+open Pixman.Lemmas.TrapTri in
+theorem triangle_tiles (n : Nat) (tri : Triangle) (hf : TriFits tri) (hnd : area2 tri ≠ 0) (c r : Int) :
+    triCount n (triOf tri) c r =
+      tzCount n (triangleToTrapezoids tri).1 c r + tzCount n (triangleToTrapezoids tri).2 c r :=
+  Pixman.Lemmas.TrapTri.triangle_tiles n tri hf hnd c r
+
+open Pixman.Lemmas.TrapTri in
+/-- sample by sample: inside the triangle ⇔ inside exactly one of the two trapezoids -/
+theorem triangle_inside_iff (tri : Triangle) (hf : TriFits tri) (hnd : area2 tri ≠ 0) (sy sx : Int) :
+    triInside (triOf tri) sy sx =
+      (tzInside (triangleToTrapezoids tri).1 sy sx || tzInside (triangleToTrapezoids tri).2 sy sx) ∧
+    ¬ (tzInside (triangleToTrapezoids tri).1 sy sx = true ∧ tzInside (triangleToTrapezoids tri).2 sy sx = true) := by
+  have hs := sortTri_sorted tri hf hnd
+  rw [triangleToTrapezoids_eq, ← sortTri_inside]
+  exact inside_sorted _ _ _ hs sy sx
+
+/-- `pixman_add_triangles` is `pixman_add_trapezoids` of the decompositions (the model mirrors the code) -/
+theorem addTriangles_eq (n : Nat) (img : Img) (xOff yOff : Int) (tris : List Triangle) :
+    addTriangles n img xOff yOff tris =
+      addTrapezoids n img xOff yOff (tris.flatMap fun t => [(triangleToTrapezoids t).1, (triangleToTrapezoids t).2]) := rfl
+
+open Pixman.Lemmas.TrapShape Pixman.Lemmas.TrapSetup Pixman.Lemmas.TrapTri in
+/-- R5 end to end: `pixman_add_triangles (image, 0, 0, 1, tri)` adds to every pixel the triangle's own sample
+    count (`Spec.triCount`, no decomposition), when the two trapezoids are in the exact region of R3 -/
+theorem addTriangle_eq_triCount (n : Nat) (hn : Depth n) (img : Img) (hwf : ImgWF n img)
+    (hh : img.height ≤ 32767) (tri : Triangle) (hf : TriFits tri) (hnd : area2 tri ≠ 0)
+    (h0 : (triangleToTrapezoids tri).1.valid = true → TzExact n img.height (triangleToTrapezoids tri).1)
+    (h1 : (triangleToTrapezoids tri).2.valid = true → TzExact n img.height (triangleToTrapezoids tri).2) :
+    addTriangles n img 0 0 [tri] = { img with rows := addTri n img.width img.height img.rows (triOf tri) } :=
+  Pixman.Lemmas.TrapSetup.addTriangle_eq_triCount n hn img hwf hh tri hf hnd h0 h1
+
+open Pixman.Lemmas.TrapShape Pixman.Lemmas.TrapSetup Pixman.Lemmas.TrapTri in
+/-- non-vacuity of `addTriangle_eq_triCount`: a triangle whose three sides lean left, vertices in an order that
+    needs two of the three swaps; a8 image of 5×2 pixels; result `#[#[0, 0, 0, 79, 58], #[0, 5, 50, 22, 0]]` -/
+example : addTriangles 8 (Img.mk' 5 2 0) 0 0 [⟨⟨100000, 120000⟩, ⟨300000, 2185⟩, ⟨280000, 50000⟩⟩] =
+    { Img.mk' 5 2 0 with rows := (addTri 8 5 2 (Img.mk' 5 2 0).rows (triOf ⟨⟨100000, 120000⟩, ⟨300000, 2185⟩, ⟨280000, 50000⟩⟩)) } := by
+  have htz : triangleToTrapezoids ⟨⟨100000, 120000⟩, ⟨300000, 2185⟩, ⟨280000, 50000⟩⟩ =
+      (⟨2185, 50000, ⟨⟨300000, 2185⟩, ⟨100000, 120000⟩⟩, ⟨⟨300000, 2185⟩, ⟨280000, 50000⟩⟩⟩,
+       ⟨50000, 120000, ⟨⟨300000, 2185⟩, ⟨100000, 120000⟩⟩, ⟨⟨280000, 50000⟩, ⟨100000, 120000⟩⟩⟩) := by decide
+  have hTL : lineOf ⟨⟨300000, 2185⟩, ⟨100000, 120000⟩⟩ = ⟨300000, 2185, 100000, 120000⟩ := by decide
+  have hTR : lineOf ⟨⟨300000, 2185⟩, ⟨280000, 50000⟩⟩ = ⟨300000, 2185, 280000, 50000⟩ := by decide
+  have hRL : lineOf ⟨⟨280000, 50000⟩, ⟨100000, 120000⟩⟩ = ⟨280000, 50000, 100000, 120000⟩ := by decide
+  have t0 : firstRow 8 2185 = 2185 := by decide
+  have b0 : lastRow 8 ((Img.mk' 5 2 0).height : Int) 50000 = 45875 := by decide
+  have t1 : firstRow 8 50000 = 50244 := by decide
+  have b1 : lastRow 8 ((Img.mk' 5 2 0).height : Int) 120000 = 115780 := by decide
+  apply Pixman.Props.C12.addTriangle_eq_triCount 8 (Or.inr (Or.inr rfl)) (Img.mk' 5 2 0) (imgWF_mk' 8 5 2 0 (by decide) (by decide))
+    (by decide)
+  · simp only [TriFits]; decide
+  · simp only [area2]; decide
+  · intro _
+    rw [htz]
+    refine ⟨by simp only [InI32]; decide, by simp only [InI32]; decide, by simp only [InI32]; decide, Or.inr ⟨?_, ?_, ?_, ?_, ?_, ?_⟩⟩
+    · simp only [t0, b0]; decide
+    · simp only [t0, hTL]; exact ⟨by decide, by decide, by decide, by decide, by decide, by decide, by decide⟩
+    · simp only [t0, hTR]; exact ⟨by decide, by decide, by decide, by decide, by decide, by decide, by decide⟩
+    · simp only [t0, b0, hTL]
+      exact ⟨fun g _ h1 h2 => by simp only [FitAt, lineNum]; omega, fun g _ h1 h2 => Or.inr (Or.inl (by decide))⟩
+    · simp only [t0, b0, hTR]
+      exact ⟨fun g _ h1 h2 => by simp only [FitAt, lineNum]; omega, fun g _ h1 h2 => Or.inr (Or.inl (by decide))⟩
+    · exact fun h => absurd h (by decide)
+  · intro _
+    rw [htz]
+    refine ⟨by simp only [InI32]; decide, by simp only [InI32]; decide, by simp only [InI32]; decide, Or.inr ⟨?_, ?_, ?_, ?_, ?_, ?_⟩⟩
+    · simp only [t1, b1]; decide
+    · simp only [t1, hTL]; exact ⟨by decide, by decide, by decide, by decide, by decide, by decide, by decide⟩
+    · simp only [t1, hRL]; exact ⟨by decide, by decide, by decide, by decide, by decide, by decide, by decide⟩
+    · simp only [t1, b1, hTL]
+      exact ⟨fun g _ h1 h2 => by simp only [FitAt, lineNum]; omega, fun g _ h1 h2 => Or.inr (Or.inl (by decide))⟩
+    · simp only [t1, b1, hRL]
+      exact ⟨fun g _ h1 h2 => by simp only [FitAt, lineNum]; omega, fun g _ h1 h2 => Or.inr (Or.inl (by decide))⟩
+    · exact fun h => absurd h (by decide)
+
+/-- non-vacuity: a triangle given with its lowest vertex first and clockwise (all three swaps happen),
+    one side horizontal -/
+example :
+    Pixman.Lemmas.TrapTri.TriFits ⟨⟨196608, 262144⟩, ⟨262144, 65536⟩, ⟨65536, 65536⟩⟩ ∧
+    Pixman.Lemmas.TrapTri.area2 ⟨⟨196608, 262144⟩, ⟨262144, 65536⟩, ⟨65536, 65536⟩⟩ ≠ 0 ∧
+    triangleToTrapezoids ⟨⟨196608, 262144⟩, ⟨262144, 65536⟩, ⟨65536, 65536⟩⟩ =
+      (⟨65536, 65536, ⟨⟨65536, 65536⟩, ⟨196608, 262144⟩⟩, ⟨⟨65536, 65536⟩, ⟨262144, 65536⟩⟩⟩,
+       ⟨65536, 262144, ⟨⟨65536, 65536⟩, ⟨196608, 262144⟩⟩, ⟨⟨262144, 65536⟩, ⟨196608, 262144⟩⟩⟩) := by
+  refine ⟨?_, ?_, ?_⟩
+  · simp only [Pixman.Lemmas.TrapTri.TriFits]; decide
+  · simp only [Pixman.Lemmas.TrapTri.area2]; decide
+  · decide
 
 /-! ## R6 — the regenerated `zero_src_has_no_effect` table
 
